@@ -1,6 +1,6 @@
 (* Proofs about model/LokiJson.v: a push document written in the canonical layouts is walked into exactly the streams it was
    written from. *)
-From Coq Require Import List ZArith NArith Bool Ascii String Lia.
+From Coq Require Import List ZArith NArith Bool Ascii String Lia Permutation Arith.
 From Qryn Require Import gen.DecodeConsts model.Decode model.LokiLabels model.LokiTime model.LokiJson proofs.LokiTimeProofs.
 Import ListNotations.
 Open Scope Z_scope.
@@ -97,3 +97,76 @@ Section ENTRIES.
     destruct long, line as [l|], v as [b|]; cbn; rewrite H; reflexivity.
   Qed.
 End ENTRIES.
+
+(* ---------------------------------------------------------------- key order inside an "entries" element *)
+Section ENTRY_ORDER.
+  Variable rfc : string -> option Z.
+  Definition is_ts_key (k : string) : bool := String.eqb k "ts" || String.eqb k "timestamp".
+  (* the slot a key writes: 1 timestamp (either spelling), 2 line, 3 value, 0 none (skipped) *)
+  Definition eslot (k : string) : nat :=
+    if is_ts_key k then 1%nat else if String.eqb k "line" then 2%nat else if String.eqb k "value" then 3%nat else 0%nat.
+  Definition estep (e : lentry) (kv : string * jv) : option lentry :=
+    let '(k, v) := kv in
+    if is_ts_key k then match v with JStr s => option_map (upd_entry e) (parse_time rfc s) | _ => None end
+    else if String.eqb k "line" then match v with JStr s => Some (LE (le_ts e) (Some s) (le_val e)) | _ => None end
+    else if String.eqb k "value" then match v with JNum b _ => Some (LE (le_ts e) (le_line e) (Some b)) | _ => None end
+    else Some e.
+  Lemma entry_members_cons kv r e :
+    entry_members rfc (kv :: r) e = match estep e kv with Some e' => entry_members rfc r e' | None => None end.
+  Proof.
+    destruct kv as [k v]. cbn [entry_members]. unfold estep, is_ts_key.
+    destruct (String.eqb k "ts" || String.eqb k "timestamp").
+    - destruct v; try reflexivity. destruct (parse_time rfc s); reflexivity.
+    - destruct (String.eqb k "line"); [destruct v; reflexivity|].
+      destruct (String.eqb k "value"); [destruct v; reflexivity|reflexivity].
+  Qed.
+
+  Definition obind {A B} (o : option A) (f : A -> option B) : option B := match o with Some x => f x | None => None end.
+  Lemma estep_comm e x y : (eslot (fst x) <> eslot (fst y) \/ eslot (fst x) = 0%nat) ->
+    obind (estep e x) (fun e1 => estep e1 y) = obind (estep e y) (fun e1 => estep e1 x).
+  Proof.
+    destruct x as [kx vx], y as [ky vy]. unfold estep, eslot, obind. cbn [fst].
+    destruct (is_ts_key kx), (String.eqb kx "line"), (String.eqb kx "value"), (is_ts_key ky), (String.eqb ky "line"), (String.eqb ky "value");
+      intros [H|H]; try congruence; try discriminate H;
+      destruct vx; try reflexivity; destruct vy; try reflexivity;
+      repeat match goal with |- context [parse_time rfc ?s] => destruct (parse_time rfc s) end; reflexivity.
+  Qed.
+
+  (* the keys of each slot occur at most once *)
+  Definition slots_once (ms : list (string * jv)) : Prop :=
+    forall s, s <> 0%nat -> (count_occ Nat.eq_dec (map (fun kv => eslot (fst kv)) ms) s <= 1)%nat.
+
+  Lemma slots_once_tail x ms : slots_once (x :: ms) -> slots_once ms.
+  Proof.
+    intros H s Hs. specialize (H s Hs). cbn [map] in H.
+    destruct (Nat.eq_dec (eslot (fst x)) s) as [E|E].
+    - rewrite (count_occ_cons_eq _ _ E) in H. lia.
+    - rewrite (count_occ_cons_neq _ _ E) in H. exact H.
+  Qed.
+
+  Lemma slots_once_perm a b : Permutation a b -> slots_once a -> slots_once b.
+  Proof.
+    intros HP H s Hs. specialize (H s Hs).
+    assert (HP' : Permutation (map (fun kv => eslot (fst kv)) a) (map (fun kv => eslot (fst kv)) b)) by (apply Permutation_map; exact HP).
+    rewrite (Permutation_count_occ Nat.eq_dec) in HP'. rewrite <- HP'. exact H.
+  Qed.
+
+  Lemma entry_members_perm : forall a b, Permutation a b -> slots_once a -> forall e, entry_members rfc a e = entry_members rfc b e.
+  Proof.
+    induction 1 as [|x l l' HP IH|x y l|l l' l'' HP1 IH1 HP2 IH2]; intros Hs e.
+    - reflexivity.
+    - rewrite !entry_members_cons. destruct (estep e x); [apply IH; eapply slots_once_tail; exact Hs|reflexivity].
+    - rewrite !entry_members_cons.
+      assert (Hc : eslot (fst y) <> eslot (fst x) \/ eslot (fst y) = 0%nat).
+      { destruct (Nat.eq_dec (eslot (fst y)) 0) as [Z0|NZ]; [now right|left].
+        intro E. specialize (Hs (eslot (fst y)) NZ). cbn [map] in Hs.
+        rewrite (count_occ_cons_eq _ _ eq_refl) in Hs. rewrite (count_occ_cons_eq _ _ (eq_sym E)) in Hs. lia. }
+      pose proof (estep_comm e y x Hc) as C. unfold obind in C.
+      destruct (estep e y) as [e1|] eqn:E1; destruct (estep e x) as [e2|] eqn:E2.
+      + rewrite !entry_members_cons. destruct (estep e1 x) as [e3|]; destruct (estep e2 y) as [e4|]; try congruence.
+      + rewrite entry_members_cons. rewrite C. reflexivity.
+      + rewrite entry_members_cons. rewrite <- C. reflexivity.
+      + reflexivity.
+    - rewrite (IH1 Hs e). apply IH2. eapply slots_once_perm; eassumption.
+  Qed.
+End ENTRY_ORDER.
